@@ -407,8 +407,11 @@ def finish(o):
         "violations": len(fresh),
     }
     ev["coverage"].update(o.extra)
-    os.makedirs(os.path.join(VERIF, "evidence"), exist_ok=True)
-    with open(os.path.join(VERIF, "evidence", o.pid + ".json"), "w") as f:
+    # VERIF_EVIDENCE_DIR: only for experiments on deliberately broken trees (seeded changes), so that they do
+    # not overwrite the evidence of the unchanged tree; the registered commands never set it
+    evdir = os.environ.get("VERIF_EVIDENCE_DIR") or os.path.join(VERIF, "evidence")
+    os.makedirs(evdir, exist_ok=True)
+    with open(os.path.join(evdir, o.pid + ".json"), "w") as f:
         json.dump(ev, f, indent=1, sort_keys=True)
     if not fresh:
         log("%s %s: %d/%d obligations discharged, %d cases, %.1fs -- property held on everything explored" % (
